@@ -518,6 +518,25 @@ func checkC13(p *Prog, res *Result, tier string) {
 					found = true
 				}
 			}
+			// ... and on every path through reset
+			if found {
+				fld := fv
+				ins, _ := searchFrom(reset.Blocks[0], 0, searchOpts{
+					stop: func(i ssa.Instruction) bool {
+						st, ok := i.(*ssa.Store)
+						if !ok {
+							return false
+						}
+						fa, ok := st.Addr.(*ssa.FieldAddr)
+						return ok && fieldOf(fa) == fld
+					},
+					bad: func(i ssa.Instruction) bool { _, ok := i.(*ssa.Return); return ok },
+				})
+				if ins != nil {
+					res.bad("C13-R6", construct, p.pos(ins.Pos()), "reset re-initialises the accumulated field only on some paths (e.g. only for limited receivers): on the others a retried scan attempt keeps the keys of the failed one")
+					continue
+				}
+			}
 			if found {
 				res.ok("C13-R6", construct, p.pos(reset.Pos()), "own reset stores a fresh value")
 			} else {
